@@ -126,12 +126,12 @@ const ENGINE_ASSUMPTIONS: &[&str] = &[
 pub fn dispatch(a: &Args) -> Option<(Acc, RunMeta)> {
     match a.property.as_str() {
         "C01" => {
-            let mut acc = engine::run(&spec(a, "c01-any", a.n(2200, 60000), (8, 25), Domain::typed(), cfg_any, true, Some("C01")));
-            acc.merge(engine::run(&spec(a, "c01-ovl", a.n(800, 20000), (8, 25), Domain::typed(), cfg_overlay_top, true, Some("C01"))));
+            let mut acc = engine::run(&spec(a, "c01-any", a.n(3400, 40000), (8, 25), Domain::typed(), cfg_any, true, Some("C01")));
+            acc.merge(engine::run(&spec(a, "c01-ovl", a.n(1200, 15000), (8, 25), Domain::typed(), cfg_overlay_top, true, Some("C01"))));
             Some((acc, meta(a, "seeded random histories (8-25 steps) of the typed C01 domain in lock-step with the abstract tree model on generated configurations (Mem, Phys, Alt, Ovl 1-4 layers with generated conflict-free pre-population, stackings to depth 3); distinct = distinct observable states (tree+bytes fingerprint) reached after a step", ENGINE_ASSUMPTIONS)))
         }
         "C09" => {
-            let acc = engine::run(&spec(a, "c09-ovl", a.n(2600, 70000), (8, 25), Domain::typed(), cfg_overlay_top, true, Some("C09")));
+            let acc = engine::run(&spec(a, "c09-ovl", a.n(4000, 45000), (8, 25), Domain::typed(), cfg_overlay_top, true, Some("C09")));
             Some((acc, meta(a, "seeded random histories of the typed C01 domain on a top-level OverlayFS with 1-4 generated layers (Mem/Phys/Alt/nested Ovl, conflict-free pre-population, same path in several layers), model initialised with the layer union; distinct = distinct observable states", ENGINE_ASSUMPTIONS)))
         }
         "C10" => {
@@ -142,7 +142,7 @@ pub fn dispatch(a: &Args) -> Option<(Acc, RunMeta)> {
                     w.1 *= 2;
                 }
             }
-            let mut acc = engine::run(&spec(a, "c10-ovl", a.n(1800, 50000), (20, 40), d, cfg_overlay_multi, true, Some("C09")));
+            let mut acc = engine::run(&spec(a, "c10-ovl", a.n(2600, 30000), (20, 40), d, cfg_overlay_multi, true, Some("C09")));
             // model-free pass: untyped calls and write handles kept open across removals (a stale handle that is
             // published after its file was removed must not bring a removed lower-layer entry back)
             let mut du = Domain::untyped();
@@ -152,18 +152,18 @@ pub fn dispatch(a: &Args) -> Option<(Acc, RunMeta)> {
                     w.1 *= 2;
                 }
             }
-            acc.merge(engine::run(&spec(a, "c10-held", a.n(900, 25000), (15, 30), du, cfg_overlay_multi, true, None)));
+            acc.merge(engine::run(&spec(a, "c10-held", a.n(1300, 15000), (15, 30), du, cfg_overlay_multi, true, None)));
             Some((acc, meta(a, "seeded random histories (20-40 steps, removal/re-creation heavy) on a top-level OverlayFS with 2-4 pre-populated layers; tombstone monitor: every lower-layer entry removed through the overlay (and its former descendants) must stay invisible to every observer until re-created; discovered-entries rule for bookkeeping names; distinct = distinct observable states", ENGINE_ASSUMPTIONS)))
         }
         "C03" => {
-            let mut acc = engine::run(&spec(a, "c03-any", a.n(2200, 60000), (10, 25), Domain::untyped(), cfg_any, true, None));
-            acc.merge(engine::run(&spec(a, "c03-ovl", a.n(1000, 30000), (10, 25), Domain::untyped(), cfg_overlay_multi, true, None)));
+            let mut acc = engine::run(&spec(a, "c03-any", a.n(3300, 40000), (10, 25), Domain::untyped(), cfg_any, true, None));
+            acc.merge(engine::run(&spec(a, "c03-ovl", a.n(1500, 20000), (10, 25), Domain::untyped(), cfg_overlay_multi, true, None)));
             Some((acc, meta(a, "seeded random histories of the UNTYPED domain (every operation on every universe path incl. wrong-type calls and root targets, root removal excluded) on all configurations; model-free structural invariant on every snapshot; distinct = distinct observable states", ENGINE_ASSUMPTIONS)))
         }
         "C05" => {
-            let mut acc = engine::run(&spec(a, "c05-typed", a.n(1500, 40000), (8, 25), Domain::typed(), cfg_any, true, None));
-            acc.merge(engine::run(&spec(a, "c05-untyped", a.n(1500, 40000), (10, 25), Domain::untyped(), cfg_any, true, None)));
-            acc.merge(engine::run(&spec(a, "c05-ovl", a.n(600, 20000), (10, 25), Domain::untyped(), cfg_overlay_multi, true, None)));
+            let mut acc = engine::run(&spec(a, "c05-typed", a.n(2200, 25000), (8, 25), Domain::typed(), cfg_any, true, None));
+            acc.merge(engine::run(&spec(a, "c05-untyped", a.n(2200, 25000), (10, 25), Domain::untyped(), cfg_any, true, None)));
+            acc.merge(engine::run(&spec(a, "c05-ovl", a.n(1000, 12000), (10, 25), Domain::untyped(), cfg_overlay_multi, true, None)));
             Some((acc, meta(a, "snapshots after every step of typed and untyped histories on all configurations; model-free cross-observer rules (exists/metadata/is_file/is_dir/read_dir/open_file/walk_dir) on every probed and discovered path; distinct = distinct observable states", ENGINE_ASSUMPTIONS)))
         }
         "C08" => {
@@ -173,9 +173,9 @@ pub fn dispatch(a: &Args) -> Option<(Acc, RunMeta)> {
                     w.1 = 8;
                 }
             }
-            let mut acc = engine::run(&spec(a, "c08-ovl", a.n(2000, 50000), (10, 25), d.clone(), cfg_overlay_multi, true, None));
+            let mut acc = engine::run(&spec(a, "c08-ovl", a.n(3000, 30000), (10, 25), d.clone(), cfg_overlay_multi, true, None));
             // same workload with one injected underlying failure in ~20% of the steps (copy-up, marker creation, ... fail half-way)
-            let mut faulty = spec(a, "c08-ovl-faults", a.n(1200, 30000), (10, 25), d, cfg_overlay_multi, true, None);
+            let mut faulty = spec(a, "c08-ovl-faults", a.n(1800, 20000), (10, 25), d, cfg_overlay_multi, true, None);
             faulty.fault_permille = 400;
             for w in faulty.domain.weights.iter_mut() {
                 if matches!(w.0, "append_file" | "copy_file" | "move_file" | "create_file") {
@@ -186,9 +186,14 @@ pub fn dispatch(a: &Args) -> Option<(Acc, RunMeta)> {
             Some((acc, meta(a, "untyped histories + timestamp setters on OverlayFS with 2-4 pre-populated layers (Mem/Phys/Alt/nested Ovl); recording wrapper around every filesystem of the stack: no mutating call may reach a node inside a lower layer, no mutating call during pure observers; deep state (type, bytes, created, modified) of every lower layer compared before/after every step; distinct = distinct observable states", ENGINE_ASSUMPTIONS)))
         }
         "C12" => {
-            let mut acc = engine::run(&spec(a, "c12-typed", a.n(1200, 30000), (8, 25), Domain::typed(), cfg_any, true, None));
-            acc.merge(engine::run(&spec(a, "c12-untyped", a.n(1200, 30000), (10, 25), Domain::untyped(), cfg_any, true, None)));
-            acc.merge(engine::run(&spec(a, "c12-ovl", a.n(800, 20000), (10, 25), Domain::untyped(), cfg_overlay_top, true, None)));
+            // no kept-open write handles here: a stale handle published after its file was removed leaves an upper-layer
+            // entry hidden behind a deletion marker, and the kind rules (which classify targets by what is observable)
+            // would then blame the library for "absent" targets that are not absent underneath
+            let mut du = Domain::untyped();
+            du.hold_handles = false;
+            let mut acc = engine::run(&spec(a, "c12-typed", a.n(1800, 18000), (8, 25), Domain::typed(), cfg_any, true, None));
+            acc.merge(engine::run(&spec(a, "c12-untyped", a.n(1800, 18000), (10, 25), du.clone(), cfg_any, true, None)));
+            acc.merge(engine::run(&spec(a, "c12-ovl", a.n(1200, 12000), (10, 25), du, cfg_overlay_top, true, None)));
             Some((acc, meta(a, "every Err returned by any operation or observer of typed/untyped histories on all configurations (adapter stackings to depth 3) is checked: label not the placeholder, label related to the call path/destination, kind rules (missing entry -> NotFound, occupied create_dir -> File/DirectoryExists, NotSupported); distinct = distinct observable states", ENGINE_ASSUMPTIONS)))
         }
         "C02" => {
@@ -201,7 +206,7 @@ pub fn dispatch(a: &Args) -> Option<(Acc, RunMeta)> {
             d.append_seeks = true;
             d.big_content_permille = 250;
             d.weights = vec![("create_file", 10), ("append_file", 9), ("copy_file", 4), ("move_file", 3), ("open_read", 2), ("metadata", 2), ("create_dir", 3), ("read_to_string", 2), ("copy_dir", 1), ("move_dir", 1)];
-            let mut acc = engine::run(&spec(a, "c04-engine", a.n(1500, 30000), (6, 16), d, cfg_any, true, Some("C04")));
+            let mut acc = engine::run(&spec(a, "c04-engine", a.n(2000, 20000), (6, 16), d, cfg_any, true, Some("C04")));
             acc.merge(c04::run(a));
             Some((acc, meta(a, "(A) engine histories dominated by write sessions with write/seek/flush scripts (append seeks on memory-backed configurations only), contents 0..16384 bytes incl. the 8 KiB copy-buffer boundary and non-UTF-8, copy/move, on all configurations incl. overlay copy-up: after every step every file must read back (random read-buffer size per history) exactly the bytes std::io::Cursor semantics prescribe and metadata must report that length, directories length 0; (B) session cases up to 65537 bytes (200 kB thorough): flush through a still-open handle must be visible to a new reader, read-back with buffer sizes 1,2,7,4096,8192,len,len+1, copy_file/move_file to the same instance, a twin instance and another backend; distinct = distinct observable states (A) + distinct final contents (B)", ENGINE_ASSUMPTIONS)))
         }
@@ -238,13 +243,13 @@ pub fn dispatch(a: &Args) -> Option<(Acc, RunMeta)> {
             d.rich_scripts = true;
             d.append_seeks = true;
             d.extreme_scripts = true;
-            let mut acc = engine::run(&spec(a, "c13-any", a.n(3000, 60000), (10, 30), d.clone(), cfg_any, true, None));
-            acc.merge(engine::run(&spec(a, "c13-ovl", a.n(1000, 20000), (10, 30), d, cfg_overlay_top, true, None)));
-            acc.merge(par_run(a, "c13-handles", a.n(15000, 300000), |a, idx, acc| c14::run_case(a, "c13-handles", idx, true, acc)));
+            let mut acc = engine::run(&spec(a, "c13-any", a.n(3000, 25000), (10, 30), d.clone(), cfg_any, true, None));
+            acc.merge(engine::run(&spec(a, "c13-ovl", a.n(1000, 8000), (10, 30), d, cfg_overlay_top, true, None)));
+            acc.merge(par_run(a, "c13-handles", a.n(15000, 200000), |a, idx, acc| c14::run_case(a, "c13-handles", idx, true, acc)));
             acc.merge(c13::run_dedicated(a));
             acc.merge(c18::run(a));
             acc.merge(c06::run(a).0);
-            acc.merge(par_run(a, "c13-async", a.n(1500, 30000), c15::hostile_async_case));
+            acc.merge(par_run(a, "c13-async", a.n(1500, 10000), c15::hostile_async_case));
             Some((acc, meta(a, "catch_unwind + panic hook around every library call of: (1) unrestricted histories (all operations on all paths incl. root targets and root removal, wrong types, write scripts with seeks, read scripts with offsets i64::MIN..i64::MAX / u64::MAX) on all configurations; (2) handle scripts with extreme offsets on Mem/Phys/Alt/Ovl handles; (3) handles used after their file / parent directory was removed, replaced or moved; (4) PhysicalFS over directories prepared with std::fs (non-UTF-8 names, dangling symlinks, symlink loops, self links); (5) every operation on every path of the EmbeddedFS fixtures; (6) the join sweep; (7) the async port (same histories through AsyncVfsPath on a tokio current-thread executor); distinct = distinct observable states / scripts / scenarios", &["copy_dir/move_dir into the source's own subtree is never generated (documented non-termination)", "OverlayFS::new(&[]) is the documented panic and is never called", "dev profile: overflow checks and debug assertions on; thorough also runs the release profile"])))
         }
         "C15" => {
